@@ -141,6 +141,12 @@ func (f *diskFile) Sync() error {
 }
 
 type c16Scenario struct {
+	// Bare: the fault-free execution is repeated on the file systems themselves, without the FailFS that counts
+	// the primitives (a file type may offer more to io.Copy than the wrapper shows).
+	Bare bool `json:"bare,omitempty"`
+	// DirSrc: the source path is a directory: nothing can be copied or hashed, the call must say so.
+	DirSrc bool `json:"source_is_a_directory,omitempty"`
+
 	Fn       string `json:"function"`
 	Size     int    `json:"size"`
 	Mode     uint32 `json:"mode"`
@@ -256,11 +262,17 @@ func c16Exec(c *sim.Ctx, sc c16Scenario, plan c16Plan, n int) c16Out {
 	dst := c16MakeSide(c, sc.Dst, "dst", n)
 	content := c16Content(sc.Seed, sc.Size)
 
-	if err := src.base.WriteFile(src.rbPath, content, 0o666); err != nil {
-		return out
-	}
+	if sc.DirSrc {
+		if err := src.base.Mkdir(src.rbPath, 0o755); err != nil {
+			return out
+		}
+	} else {
+		if err := src.base.WriteFile(src.rbPath, content, 0o666); err != nil {
+			return out
+		}
 
-	_ = src.base.Chmod(src.rbPath, fs.FileMode(sc.Mode))
+		_ = src.base.Chmod(src.rbPath, fs.FileMode(sc.Mode))
+	}
 
 	if sc.Existing && sc.Dst != "rofs" {
 		_ = dst.base.WriteFile(dst.rbPath, []byte("previous content of the destination, longer than nothing"), 0o600)
@@ -295,6 +307,10 @@ func c16Exec(c *sim.Ctx, sc c16Scenario, plan c16Plan, n int) c16Out {
 
 	srcV := wrap("src", src.vfs)
 	dstV := wrap("dst", dst.vfs)
+
+	if plan.Kind == "bare" {
+		srcV, dstV = src.vfs, dst.vfs
+	}
 
 	var (
 		sum []byte
@@ -363,6 +379,11 @@ func c16Exec(c *sim.Ctx, sc c16Scenario, plan c16Plan, n int) c16Out {
 
 		return viol("fault-swallowed", "returned nil although "+plan.Side+" "+what+" failed",
 			fmt.Sprintf("scenario %+v plan %s: error is nil", sc, planS))
+	}
+
+	if sc.DirSrc && err == nil {
+		return viol("directory-as-source", "returned nil although the source is a directory",
+			fmt.Sprintf("scenario %+v plan %s: error is nil, digest %s", sc, planS, hex.EncodeToString(sum)))
 	}
 
 	if err != nil {
@@ -444,13 +465,15 @@ func (p C16) Run(c *sim.Ctx, t *sim.Tape) sim.RunResult {
 	sc := c16Scenario{
 		Fn:   []string{"CopyFileHash", "CopyFile", "HashFile"}[t.Weighted([]int{5, 3, 2})],
 		Size: sizes[t.Int(len(sizes))],
-		Mode: []uint32{0o644, 0o600, 0o755, 0o400, 0o666, 0o640, 0o751}[t.Int(7)],
+		Mode: []uint32{0o644, 0o600, 0o755, 0o400, 0o666, 0o640, 0o751, 0o000, 0o007}[t.Int(9)],
 		Src:  []string{"memfs", "orefafs", "basepathfs", "rofs", "osfs"}[t.Weighted([]int{4, 3, 2, 2, 2})],
 		Dst:  []string{"memfs", "orefafs", "basepathfs", "osfs", "rofs"}[t.Weighted([]int{4, 3, 2, 2, 1})],
 		Seed: uint32(t.Int(1 << 16)),
 	}
 	sc.Hasher = t.Chance(600)
 	sc.Existing = t.Chance(300)
+	sc.Bare = t.Chance(250)
+	sc.DirSrc = t.Chance(50)
 
 	if sc.Size < 0 {
 		sc.Size = t.Int(100*1024) + 1
@@ -469,6 +492,32 @@ func (p C16) Run(c *sim.Ctx, t *sim.Tape) sim.RunResult {
 		tr.Plan = "fault-free"
 		res.Trace = tr
 		res.Violation = base.violation
+
+		return res
+	}
+
+	if sc.Bare {
+		bare := c16Exec(c, sc, c16Plan{Kind: "bare"}, n)
+		res.Cases++
+		res.Steps++
+
+		c.Count("fault_free_without_wrapper", 1)
+
+		if bare.violation != nil {
+			tr.Plan = "fault-free, file systems not wrapped"
+			res.Trace = tr
+			res.Violation = bare.violation
+
+			return res
+		}
+	}
+
+	if sc.DirSrc {
+		// nothing to inject into: the call fails before it copies.
+		c.Count("source_is_a_directory", 1)
+
+		res.Trace = tr
+		res.TraceHash = sim.HashString(fmt.Sprintf("%+v", sc))
 
 		return res
 	}
